@@ -2,6 +2,7 @@ package promise
 
 import (
 	"context"
+	"github.com/aperturerobotics/util/verifhook"
 	"sync/atomic"
 )
 
@@ -47,8 +48,10 @@ func (p *Promise[T]) SetResult(val T, err error) bool {
 	if p.isDone.Swap(true) {
 		return false
 	}
+	verifhook.Atomic("promise.set", p)
 	p.result = &val
 	p.err = err
+	verifhook.Atomic("promise.close", p)
 	close(p.done)
 	return true
 }
